@@ -671,6 +671,30 @@ impl VisitMut for Normalizer {
                     replacement = Some(syn::Expr::Loop(syn::ExprLoop { attrs: vec![], label: None, loop_token: Default::default(), body: syn::Block { brace_token: Default::default(), stmts: vec![syn::Stmt::Expr(inner, None)] } }));
                 }
             }
+            syn::Expr::Loop(l) if l.attrs.is_empty() && l.label.is_none() => {
+                // `loop { if C { break; } REST }`  ->  `while !C { REST }`
+                let first_is_break_test = match l.body.stmts.first() {
+                    Some(syn::Stmt::Expr(syn::Expr::If(i), _)) if i.else_branch.is_none() && i.attrs.is_empty() && !matches!(&*i.cond, syn::Expr::Let(_)) && cond_as_test(&i.cond).is_none() => {
+                        matches!(i.then_branch.stmts.as_slice(), [syn::Stmt::Expr(syn::Expr::Break(b), _)] if b.expr.is_none() && b.label.is_none())
+                    }
+                    _ => false,
+                };
+                if first_is_break_test && l.body.stmts.len() >= 2 {
+                    if let Some(syn::Stmt::Expr(syn::Expr::If(i), _)) = l.body.stmts.first() {
+                        let mut c: &syn::Expr = &i.cond;
+                        while let syn::Expr::Paren(p) = c {
+                            c = &p.expr;
+                        }
+                        let negated: syn::Expr = match c {
+                            syn::Expr::Unary(u) if matches!(u.op, syn::UnOp::Not(_)) => (*u.expr).clone(),
+                            syn::Expr::Binary(_) | syn::Expr::Cast(_) | syn::Expr::Range(_) => syn::parse_quote!(!(#c)),
+                            other => syn::parse_quote!(!#other),
+                        };
+                        let rest: Vec<syn::Stmt> = l.body.stmts[1..].to_vec();
+                        replacement = Some(syn::Expr::While(syn::ExprWhile { attrs: vec![], label: None, while_token: Default::default(), cond: Box::new(negated), body: syn::Block { brace_token: Default::default(), stmts: rest } }));
+                    }
+                }
+            }
             syn::Expr::Binary(b) => {
                 let swapped = match b.op {
                     syn::BinOp::Gt(_) => Some(syn::BinOp::Lt(Default::default())),
@@ -771,6 +795,24 @@ impl VisitMut for Normalizer {
                     a.comma = Some(Default::default());
                 }
             }
+            // a final catch-all arm that only names the scrutinee again (`r => Some(r)` on a local `token`) is the
+            // wildcard arm using the scrutinee itself
+            if let Some(scrut) = sm::as_ident(&m.expr) {
+                if let Some(last) = m.arms.last_mut() {
+                    let binder = match &last.pat {
+                        syn::Pat::Ident(pi) if pi.by_ref.is_none() && pi.mutability.is_none() && pi.subpat.is_none() && pi.ident.to_string().chars().next().map_or(false, |c| c.is_lowercase()) => Some(pi.ident.to_string()),
+                        _ => None,
+                    };
+                    if let (Some(b), true) = (binder, last.guard.is_none() && last.attrs.is_empty()) {
+                        if b != scrut {
+                            if let Some(nb) = rename_ident_in_expr(&last.body, &b, &scrut) {
+                                *last.body = nb;
+                                last.pat = syn::Pat::Wild(syn::PatWild { attrs: vec![], underscore_token: Default::default() });
+                            }
+                        }
+                    }
+                }
+            }
             sort_arms(m);
             // every arm ends with a comma (optional after a block body)
             for a in m.arms.iter_mut() {
@@ -778,6 +820,58 @@ impl VisitMut for Normalizer {
             }
         }
     }
+}
+
+/// `e` with the local `from` renamed to `to` (token-wise; field and method names after a `.` are left alone).
+/// None if `e` rebinds `from` or mentions `to` already.
+fn rename_ident_in_expr(e: &syn::Expr, from: &str, to: &str) -> Option<syn::Expr> {
+    fn go(ts: proc_macro2::TokenStream, from: &str, to: &str, clash: &mut bool) -> proc_macro2::TokenStream {
+        let mut out = proc_macro2::TokenStream::new();
+        let mut prev_dot = false;
+        let mut prev_binder = false;
+        for tt in ts {
+            match tt {
+                proc_macro2::TokenTree::Ident(i) => {
+                    let name = i.to_string();
+                    if name == from && !prev_dot {
+                        if prev_binder {
+                            *clash = true;
+                        }
+                        out.extend(std::iter::once(proc_macro2::TokenTree::Ident(proc_macro2::Ident::new(to, i.span()))));
+                    } else {
+                        if name == to && !prev_dot {
+                            *clash = true;
+                        }
+                        prev_binder = name == "let" || name == "mut" || name == "for";
+                        out.extend(std::iter::once(proc_macro2::TokenTree::Ident(i)));
+                        prev_dot = false;
+                        continue;
+                    }
+                    prev_dot = false;
+                    prev_binder = false;
+                }
+                proc_macro2::TokenTree::Group(g) => {
+                    let mut ng = proc_macro2::Group::new(g.delimiter(), go(g.stream(), from, to, clash));
+                    ng.set_span(g.span());
+                    out.extend(std::iter::once(proc_macro2::TokenTree::Group(ng)));
+                    prev_dot = false;
+                    prev_binder = false;
+                }
+                other => {
+                    prev_dot = matches!(&other, proc_macro2::TokenTree::Punct(p) if p.as_char() == '.');
+                    prev_binder = matches!(&other, proc_macro2::TokenTree::Punct(p) if p.as_char() == '|');
+                    out.extend(std::iter::once(other));
+                }
+            }
+        }
+        out
+    }
+    let mut clash = false;
+    let ts = go(quote::ToTokens::to_token_stream(e), from, to, &mut clash);
+    if clash {
+        return None;
+    }
+    syn::parse2::<syn::Expr>(ts).ok()
 }
 
 // ---------------------------------------------------------------- local inlining (window tests, constant locals)
